@@ -783,7 +783,20 @@ func (e *Env) evalCall(n *ast.CallExpr) Val {
 		a, b := arg(0), arg(1)
 		return boolVal(e.st.seqEq(a, b))
 	case "held":
-		// held(mu): lock state of a mutex sub-object (pointer or struct value handle)
+		// held(x.mu): lock state of the mutex stored in (or embedded as) field mu of object x
+		if sel, ok := n.Args[0].(*ast.SelectorExpr); ok {
+			xv := e.eval(sel.X)
+			if xv.Typ != nil {
+				if stru := structOf(xv.Typ); stru != nil {
+					for i := 0; i < stru.NumFields(); i++ {
+						if stru.Field(i).Name() == sel.Sel.Name && isStruct(stru.Field(i).Type()) {
+							m := e.st.subRef(xv.C[0], deref(xv.Typ), i)
+							return boolVal(Select(e.st.heapGet("Held", ArrSort(SInt, SBool)), m))
+						}
+					}
+				}
+			}
+		}
 		mu := arg(0)
 		return boolVal(Select(e.st.heapGet("Held", ArrSort(SInt, SBool)), mu.C[0]))
 	case "allocated0":
@@ -792,6 +805,10 @@ func (e *Env) evalCall(n *ast.CallExpr) Val {
 		return boolVal(Select(e.st.heapGet("Alloc", ArrSort(SInt, SBool)), arg(0).C[0]))
 	case "closed":
 		return boolVal(Select(e.st.heapGet("ChClosed", ArrSort(SInt, SBool)), arg(0).C[0]))
+	case "asHeader":
+		// asHeader(ref): view a reference as an http.Header (map[string][]string)
+		v := arg(0)
+		return Val{Typ: types.NewMap(types.Typ[types.String], types.NewSlice(types.Typ[types.String])), C: []*T{v.C[0]}}
 	case "typeis":
 		// typeis(x, "pkg.Type"): dynamic type test of interface value
 		lit, ok := n.Args[1].(*ast.BasicLit)
